@@ -294,7 +294,7 @@ def check(ctx):
     # cancel sites whose key nobody starts are harmless; cancel with the wrong literal shows as missing above
     # registry behaviour by interpretation (vlib/taskmodel.py): domain isolation, nothing forgotten, gather
     from ..taskmodel import check_registry
-    check_registry(ctx, repo, "R3", only=("isolation", "forgotten", "gather"))
+    check_registry(ctx, repo, "R3", only=("isolation", "forgotten", "gather", "same-name"))
 
     # ---- R4 cancellation ----------------------------------------------------
     n_handlers = 0
